@@ -4,9 +4,9 @@ package c30
 import (
 	"math/big"
 
+	"verifharness/ghost"
 	"verifharness/sym"
 
-	"github.com/blinklabs-io/gouroboros/cbor"
 	"github.com/blinklabs-io/gouroboros/ledger/allegra"
 	"github.com/blinklabs-io/gouroboros/ledger/alonzo"
 	"github.com/blinklabs-io/gouroboros/ledger/babbage"
@@ -63,26 +63,26 @@ func (t feeTx) Cbor() []byte  { return t.data }
 func (t feeTx) Type() int     { return t.typ }
 func (t feeTx) Fee() *big.Int { return t.fee }
 
-// symTx builds a transaction whose stored encoding is n symbolic bytes that start with the
-// head of an array (any of the six head forms). items is the ghost number of elements of
-// that array: for definite heads it is tied to the head's count, for the indefinite form it
-// is free (the number of items before the break).
-func symTx(n int) (tx feeTx, items uint64) {
-	data := sym.Bytes("tx", n)
-	major, cnt, _, indef, ok := cbor.VerifHead(data, 0)
-	sym.Assume(ok && major == 4)
-	items = sym.U64("items")
-	sym.Assume(items <= 6)
-	if !indef {
-		sym.Assume(cnt == items)
+// symTx builds a transaction whose stored encoding is n symbolic bytes: an array head in
+// the given form (ghost.Form*) announcing `items` elements, then the elements (well-formed
+// leaves of symbolic length), then the break for the indefinite form. Every byte is
+// symbolic; the head form, item count and leaf forms are case splits.
+func symTx(form, items int) (feeTx, int) {
+	data := sym.Bytes("tx", 9+3*items+1)
+	off := ghost.PutHead(data, 0, 4, form, items)
+	for i := 0; i < items; i++ {
+		off += ghost.Leaf(data, off, "item"+string(rune('0'+i)))
 	}
-	sym.Region("envelope-indefinite", indef)
+	if form == ghost.FormIndef {
+		sym.Assume(data[off] == 0xff)
+		off++
+	}
 	typ := sym.Int("type")
 	sym.Assume(typ >= 0 && typ <= 8)
-	return feeTx{data: data, typ: typ}, items
+	return feeTx{data: data[:off], typ: typ}, off
 }
 
-func refSize(n int, typ int, items uint64) int {
+func refSize(n int, typ int, items int) int {
 	if typ >= 4 && items == 4 {
 		return n - 1
 	}
@@ -92,8 +92,8 @@ func refSize(n int, typ int, items uint64) int {
 // TxSize: size = stored length, minus one for the four-element envelope from Alonzo on,
 // whatever head form the envelope array uses.
 func TxSize() {
-	n := sym.Param("n")
-	tx, items := symTx(n)
+	items := sym.Param("items")
+	tx, n := symTx(sym.Param("form"), items)
 	size, err := common.TxSizeForFee(tx)
 	sym.Assert(err == nil, "TxSizeForFee succeeds on a stored encoding")
 	sym.ObsInt("size", size)
@@ -134,50 +134,90 @@ func eras() []eraRules {
 	}
 }
 
-// envelope heads used by the rule harnesses (concrete bytes, so that the integer theory can
-// be "int" for the big.Int arithmetic of the rules): head bytes, ghost item count.
-var heads = []struct {
-	b     []byte
-	items uint64
-}{
-	{[]byte{0x84}, 4},
-	{[]byte{0x83}, 3},
-	{[]byte{0x85}, 5},
-	{[]byte{0x98, 0x04}, 4},
-	{[]byte{0x99, 0x00, 0x04}, 4},
-	{[]byte{0x9a, 0x00, 0x00, 0x00, 0x04}, 4},
-	{[]byte{0x9b, 0, 0, 0, 0, 0, 0, 0, 0x04}, 4},
-	{[]byte{0x9f}, 4},
-	{[]byte{0x9f}, 3},
+// concBytes: the rule harnesses use a concrete envelope (so that their integer theory can be
+// "int" for the big.Int arithmetic of the rules): head in the given form announcing `items`
+// one-byte elements.
+func concBytes(form, items int) []byte {
+	n := ghost.HeadLen(form) + items
+	if form == ghost.FormIndef {
+		n++
+	}
+	data := make([]byte, n)
+	switch form {
+	case ghost.FormImm:
+		data[0] = 0x80 | byte(items)
+	case ghost.FormIndef:
+		data[0] = 0x9f
+		data[n-1] = 0xff
+	default:
+		data[0] = 0x80 | byte(23+form)
+		data[ghost.HeadLen(form)-1] = byte(items)
+	}
+	return data
 }
 
-func concTx(head, extra int) (feeTx, uint64, int) {
-	h := heads[head]
-	data := append(append([]byte{}, h.b...), make([]byte, extra)...)
-	sym.Region("envelope-indefinite", h.b[0] == 0x9f)
-	typ := sym.Int("type")
-	sym.Assume(typ >= 0 && typ <= 8)
-	return feeTx{data: data, typ: typ}, h.items, len(data)
+// tieItems states the item extents of concBytes' layout on the transaction's own copy of
+// the bytes (SetCbor copies its argument).
+func tieItems(stored []byte, form, items int) {
+	for i := 0; i < items; i++ {
+		ghost.Tie(stored, ghost.HeadLen(form)+i, 1)
+	}
+}
+
+// realTx builds the era's real transaction struct holding the stored encoding and the fee:
+// the rules then run through the real Cbor()/Fee()/Type()/MarshalCBOR methods.
+func realTx(era int, data []byte, fee uint64) common.Transaction {
+	switch era {
+	case 0:
+		t := &shelley.ShelleyTransaction{}
+		t.SetCbor(data)
+		t.Body.TxFee = fee
+		return t
+	case 1:
+		t := &allegra.AllegraTransaction{}
+		t.SetCbor(data)
+		t.Body.TxFee = fee
+		return t
+	case 2:
+		t := &mary.MaryTransaction{}
+		t.SetCbor(data)
+		t.Body.TxFee = fee
+		return t
+	case 3:
+		t := &alonzo.AlonzoTransaction{}
+		t.SetCbor(data)
+		t.Body.TxFee = fee
+		return t
+	case 4:
+		t := &babbage.BabbageTransaction{}
+		t.SetCbor(data)
+		t.Body.TxFee = fee
+		return t
+	case 5:
+		t := &conway.ConwayTransaction{}
+		t.SetCbor(data)
+		t.Body.TxFee = fee
+		return t
+	}
+	t := &dijkstra.DijkstraTransaction{}
+	t.SetCbor(data)
+	t.Body.TxFee = fee
+	return t
 }
 
 // FeeRule: per era, the rule accepts iff fee >= a*size+b with size as above; overflow => error.
 func FeeRule() {
 	era := sym.Param("era")
-	tx, items, n := concTx(sym.Param("head"), 7)
-	a, b := sym.U64("a"), sym.U64("b")
-	if sym.Bool("fee_nil") {
-		tx.fee = nil
-	} else {
-		tx.fee = sym.Big("fee")
-	}
+	items := sym.Param("items")
+	data := concBytes(sym.Param("form"), items)
+	n := len(data)
+	a, b, fee := sym.U64("a"), sym.U64("b"), sym.U64("fee")
+	tx := realTx(era, data, fee)
+	tieItems(tx.Cbor(), sym.Param("form"), items)
 	r := eras()[era]
 	err := r.fee(tx, 0, nil, r.pp(uint(a), uint(b), 0))
 	sym.ObsBool("accepted", err == nil)
-	fee := tx.fee
-	if fee == nil {
-		fee = new(big.Int)
-	}
-	size := refSize(n, tx.typ, items)
+	size := refSize(n, tx.Type(), items)
 	min := new(big.Int).Mul(new(big.Int).SetUint64(a), big.NewInt(int64(size)))
 	min.Add(min, new(big.Int).SetUint64(b))
 	if !min.IsUint64() {
@@ -186,17 +226,19 @@ func FeeRule() {
 		return
 	}
 	sym.Reach("decided")
-	sym.Assert((err == nil) == (fee.Cmp(min) >= 0), "fee rule accepts iff fee >= a*size+b")
+	sym.Assert((err == nil) == (new(big.Int).SetUint64(fee).Cmp(min) >= 0), "fee rule accepts iff fee >= a*size+b")
 }
 
 // MaxSizeRule: per era, accepts iff the stored length <= max tx size.
 func MaxSizeRule() {
 	era := sym.Param("era")
-	tx, _, n := concTx(sym.Param("head"), sym.Param("extra"))
+	data := concBytes(sym.Param("form"), sym.Param("items"))
+	tx := realTx(era, data, 0)
+	tieItems(tx.Cbor(), sym.Param("form"), sym.Param("items"))
 	max := sym.U64("max")
 	r := eras()[era]
 	err := r.maxSize(tx, 0, nil, r.pp(0, 0, uint(max)))
 	sym.ObsBool("accepted", err == nil)
 	sym.Reach("decided")
-	sym.Assert((err == nil) == (uint64(n) <= max), "max-size rule accepts iff len(original) <= max")
+	sym.Assert((err == nil) == (uint64(len(data)) <= max), "max-size rule accepts iff len(original) <= max")
 }
